@@ -119,4 +119,9 @@ impl PcapWriter {
 
         Ok(())
     }
+
+    /// Write out whatever is still buffered. Dropping the writer flushes too, but discards any error.
+    pub fn flush(&mut self) -> Result<(), io::Error> {
+        self.wr.flush()
+    }
 }
